@@ -7,11 +7,11 @@ From Coq Require Import String.
 From Verif Require Export Bytes Textproto.
 Open Scope N_scope.
 
-Inductive ext := E8BITMIME | ESMTPUTF8 | EDSN | EENHANCED.
+Inductive ext := E8BITMIME | ESMTPUTF8 | EDSN | EENHANCED | ESTARTTLS.
 
 Definition ext_eqb (a b : ext) : bool :=
   match a, b with
-  | E8BITMIME, E8BITMIME | ESMTPUTF8, ESMTPUTF8 | EDSN, EDSN | EENHANCED, EENHANCED => true
+  | E8BITMIME, E8BITMIME | ESMTPUTF8, ESMTPUTF8 | EDSN, EDSN | EENHANCED, EENHANCED | ESTARTTLS, ESTARTTLS => true
   | _, _ => false
   end.
 
@@ -24,6 +24,7 @@ Inductive cmd :=
 | CGreet                                   (* the connection is opened: the server speaks first *)
 | CEhlo (name : bytes)
 | CHelo (name : bytes)
+| CStartTLS                                (* on 220 both sides start the TLS handshake (an oracle: it succeeds) *)
 | CMail (from : bytes) (ps : list param)
 | CRcpt (to : bytes) (ps : list param)
 | CData
@@ -36,7 +37,9 @@ Inductive decision := DOk | DRep (code : N) (text : bytes) | DDrop.
 Inductive txn := TIdle | TMail | TRcpt.
 
 Record srv := mkSrv {
-  s_caps : list ext;        (* what an accepted EHLO advertises (configuration) *)
+  s_caps : list ext;        (* what an accepted EHLO advertises before TLS (configuration) *)
+  s_caps_tls : list ext;    (* what an accepted EHLO advertises inside TLS (configuration) *)
+  s_tls  : bool;            (* STARTTLS was accepted: the session runs inside TLS *)
   s_open : bool;            (* still serving the connection *)
   s_helo : bool;
   s_ext  : list ext;        (* extensions of the latest accepted EHLO ([] after HELO) *)
@@ -47,8 +50,8 @@ Record srv := mkSrv {
   s_data : option bytes     (* Some content-so-far = data mode *)
 }.
 
-Definition srv_init (caps : list ext) : srv :=
-  mkSrv caps true false [] TIdle false [] [] None.
+Definition srv_init (caps caps_tls : list ext) : srv :=
+  mkSrv caps caps_tls false true false [] TIdle false [] [] None.
 
 Record commit := mkCommit { cm_from : bytes; cm_rcpt : list bytes; cm_data : bytes }.
 
@@ -75,6 +78,7 @@ Definition rcpt_param_ok (e : list ext) (p : param) : bool :=
 Definition legal (s : srv) (c : cmd) : bool :=
   match c with
   | CGreet | CEhlo _ | CHelo _ | CRset | CNoop | CQuit => true
+  | CStartTLS => has_ext (s_ext s) ESTARTTLS && negb (s_tls s)
   | CMail _ ps => s_helo s && is_idle (s_txn s) && forallb (mail_param_ok (s_ext s)) ps
   | CRcpt _ ps => negb (is_idle (s_txn s)) && forallb (rcpt_param_ok (s_ext s)) ps
   | CData => is_rcpt (s_txn s) && negb (s_rej s)
@@ -85,7 +89,7 @@ Definition legal (s : srv) (c : cmd) : bool :=
 (* ---- replies ---- *)
 Definition default_code (c : cmd) : N :=
   match c with
-  | CGreet => 220
+  | CGreet | CStartTLS => 220
   | CData => 354
   | CQuit => 221
   | CJunk => 500
@@ -96,6 +100,7 @@ Definition default_text (c : cmd) : bytes :=
   match c with
   | CGreet => bs "verif.test ESMTP verif"
   | CEhlo _ | CHelo _ => bs "verif.test"
+  | CStartTLS => bs "2.0.0 Ready to start TLS"
   | CMail _ _ => bs "2.1.0 Ok"
   | CRcpt _ _ => bs "2.1.5 Ok"
   | CData => bs "End data with <CR><LF>.<CR><LF>"
@@ -125,18 +130,22 @@ Definition next_decision (script : list decision) : decision * list decision :=
 
 (* ---- state change caused by a command that was answered with [code] ---- *)
 Definition set_txn (s : srv) (t : txn) (rej : bool) (from : bytes) (rc : list bytes) : srv :=
-  mkSrv (s_caps s) (s_open s) (s_helo s) (s_ext s) t rej from rc (s_data s).
+  mkSrv (s_caps s) (s_caps_tls s) (s_tls s) (s_open s) (s_helo s) (s_ext s) t rej from rc (s_data s).
 Definition set_hello (s : srv) (e : list ext) : srv :=
-  mkSrv (s_caps s) (s_open s) true e TIdle false (s_from s) [] (s_data s).
+  mkSrv (s_caps s) (s_caps_tls s) (s_tls s) (s_open s) true e TIdle false (s_from s) [] (s_data s).
 Definition set_data (s : srv) (d : option bytes) : srv :=
-  mkSrv (s_caps s) (s_open s) (s_helo s) (s_ext s) (s_txn s) (s_rej s) (s_from s) (s_rcpt s) d.
+  mkSrv (s_caps s) (s_caps_tls s) (s_tls s) (s_open s) (s_helo s) (s_ext s) (s_txn s) (s_rej s) (s_from s) (s_rcpt s) d.
 Definition set_closed (s : srv) : srv :=
-  mkSrv (s_caps s) false (s_helo s) (s_ext s) (s_txn s) (s_rej s) (s_from s) (s_rcpt s) (s_data s).
+  mkSrv (s_caps s) (s_caps_tls s) (s_tls s) false (s_helo s) (s_ext s) (s_txn s) (s_rej s) (s_from s) (s_rcpt s) (s_data s).
+(* STARTTLS accepted: a fresh session inside TLS (RFC 3207: the server discards what it knew, the client must EHLO again) *)
+Definition start_tls (s : srv) : srv :=
+  mkSrv (s_caps s) (s_caps_tls s) true (s_open s) false [] TIdle false [] [] (s_data s).
 
 Definition srv_apply (s : srv) (c : cmd) (code : N) : srv * option commit :=
   match c with
   | CGreet | CNoop | CJunk => (s, None)
-  | CEhlo _ => (if okclass code then set_hello s (s_caps s) else s, None)
+  | CEhlo _ => (if okclass code then set_hello s (if s_tls s then s_caps_tls s else s_caps s) else s, None)
+  | CStartTLS => (if code =? 220 then start_tls s else s, None)
   | CHelo _ => (if okclass code then set_hello s [] else s, None)
   | CMail from _ => (if okclass code then set_txn s TMail false from [] else s, None)
   | CRcpt to _ =>
@@ -182,6 +191,7 @@ Definition cmd_bytes (c : cmd) : bytes :=
   | CGreet | CJunk => []
   | CEhlo n => bs "EHLO " ++ n
   | CHelo n => bs "HELO " ++ n
+  | CStartTLS => bs "STARTTLS"
   | CMail f ps => bs "MAIL FROM:<" ++ f ++ bs ">" ++ concat (map param_bytes ps)
   | CRcpt t ps => bs "RCPT TO:<" ++ t ++ bs ">" ++ concat (map param_bytes ps)
   | CData => bs "DATA"
